@@ -5,7 +5,7 @@
 # Then runs the property's quick check against it by applying the patch to /repo transiently.
 # Writes /verif/seeded/<ID>-<v>/{patch.diff,demo.rs,meta.json}
 ID=$1; V=$2
-W=/tmp/seed/$ID; O=/tmp/seed/$ID-out
+R=${SEED_ROOT:-/tmp/seed}; W=$R/$ID; O=$R/$ID-out
 [ -f $O/$V.diff ] || { echo "no $O/$V.diff"; exit 1; }
 cd $W || exit 1
 git checkout -q -- . ; rm -rf rust/ommx/tests
@@ -37,10 +37,10 @@ cp $O/$V.diff $D/patch.diff; cp $O/demo_$V.rs $D/demo.rs
 python3 - "$ID" "$V" "$clean_demo" "$unit" "$mut_demo" "$res" <<'PY'
 import json,sys,re
 i,v,cd,un,md,res=sys.argv[1:7]
-notes=open(f'/tmp/seed/{i}-out/NOTES.md').read() if True else ''
+import os; notes=open(os.environ.get("SEED_ROOT","/tmp/seed")+f"/{i}-out/NOTES.md").read()
 meta={"property":i,"variant":v,
  "confirmed":{"demo_on_clean_tree":cd,"unit_tests_with_change":un,"demo_with_change":md,
-   "commands":["cd /tmp/seed/%s (scratch worktree); cp demo rust/ommx/tests/seed_demo.rs; cargo test -p ommx --test seed_demo --offline"%i,"git apply patch.diff; cargo test -p ommx --lib --offline; cargo test -p ommx --test seed_demo --offline","git -C /repo apply patch.diff; cd /verif && ./check <ID> quick; git -C /repo checkout -- ."]},
+   "commands":["cd <scratch worktree of %s>; cp demo rust/ommx/tests/seed_demo.rs; cargo test -p ommx --test seed_demo --offline"%i,"git apply patch.diff; cargo test -p ommx --lib --offline; cargo test -p ommx --test seed_demo --offline","git -C /repo apply patch.diff; cd /verif && ./check <ID> quick; git -C /repo checkout -- ."]},
  "check_results":res,
  "origin":"written by a sub-agent that saw only the property text and its own scratch worktree",
  "needs_to_manifest":"see notes",
